@@ -11,12 +11,19 @@
     returns to the executor instead (property intact; covered so that the acceptor need not pin it); [wf_items p] says chain/join items name earlier promise
     items, each once; [bfun_ok p] is the documented contract of batch resolvers (one result per field
     context).  Every theorem quantifies over ALL interleavings [tr]: no bound on sizes or schedules.
+    CANCELLATION of the request context is the environment label [LCancel], enabled at any point
+    (once): every theorem below therefore holds with the cancellation interleaved anywhere — before
+    the first resolver, between waves, while functions run, after the last delivery.  What the code
+    does with it is part of the model: the executor stops invoking resolvers (it just takes no more
+    [LCreate]), functions given to Go may return something else (their results are [prog]'s), and the
+    idle handler / the hand-over in Go / chain / join ignore it; "every started function returns"
+    is the LTS' assumption that [LFinish] is enabled for a goroutine inside f().
 
     RUNTIME RESIDUE (why the claim is labelled partial): that the Go scheduler, unbuffered / buffered
     channel operations, [select] and [sync.WaitGroup] behave as the LTS' labels say is assumed, not
     proved; the correspondence check replays observed histories of the real code through the LTS. *)
 From Coq Require Import List ZArith Arith.
-From ApiFu Require Import Idle.IdleModel Idle.IdleSpec Idle.IdleProofs Idle.IdleLive Idle.IdleHist Idle.IdleFair.
+From ApiFu Require Import Idle.IdleModel Idle.IdleSpec Idle.IdleProofs Idle.IdleLive Idle.IdleHist Idle.IdleFair Idle.IdleSub.
 From ApiFu Require Fut.Plan Fut.ExecAsync Fut.ExecSync Fut.AsyncRun Fut.FutSpec Fut.FutProofs.
 Import ListNotations.
 
@@ -65,8 +72,9 @@ Section C15.
   Proof. exact (batch_coalesced p WF BF fx). Qed.
 
   (** NO DEADLOCK.  In every reachable state in which the request has not returned, a step is
-      enabled that does not depend on the query ([forced]: any label except "a resolver is invoked"
-      and "a sibling failure discards a pending field"): the executor can take a result, enter the
+      enabled that depends neither on the query nor on the environment ([forced]: any label except
+      "a resolver is invoked", "a sibling failure discards a pending field" and "the request context
+      is cancelled"): the executor can take a result, enter the
       idle handler or return; inside the idle handler a batch can be flushed, or some goroutine can
       move towards the hand-over the handler is blocked on, or the handler can receive / return. *)
   Theorem C15_deadlock_free : forall tr s,
@@ -74,9 +82,9 @@ Section C15.
     exists l s', forced l = true /\ step fx p s l = Some s'.
   Proof. exact (deadlock_free_run p WF BF fx). Qed.
 
-  (** NO LIVELOCK.  No interleaving has more than 36 n + 1 steps (n = number of work items). *)
+  (** NO LIVELOCK.  No interleaving has more than 36 n + 5 steps (n = number of work items). *)
   Theorem C15_terminates : forall tr s,
-    run fx p init tr = Some s -> length tr <= 36 * length (p_items p) + 1.
+    run fx p init tr = Some s -> length tr <= 36 * length (p_items p) + 5.
   Proof. exact (terminates p WF BF fx). Qed.
 
   (** COMPLETION.  From every reachable state the request returns, by forced steps alone. *)
@@ -121,6 +129,18 @@ Section C15.
     exists w, In w (deliveries mid) /\
               visible p w = true /\ In w (created_of pre) /\ ~ In w (deliveries pre).
   Proof. exact (round_fair_unchained p WF BF fx). Qed.
+
+  (** ... and everything such a round fills is outstanding at its entry: one idle round of the LTS is
+      one [idle] transition of C02's promise table with chosen = [deliveries mid] (the handler's half
+      of the joint executor + handler model; the executor's half — C02's poll creating exactly the
+      LTS' [LCreate]s and taking exactly its [LConsume]s — is not proved). *)
+  Theorem C15_idle_round_deliveries_outstanding : forall pre mid s,
+    no_chaining p ->
+    run fx p init (pre ++ LIdleEnter :: mid ++ [LIdleExit]) = Some s -> ~ In LIdleExit mid ->
+    deliveries mid <> [] /\
+    forall w, In w (deliveries mid) ->
+      visible p w = true /\ In w (created_of pre) /\ ~ In w (deliveries pre).
+  Proof. exact (round_deliveries_outstanding p WF BF fx). Qed.
 
   (** With chaining a round may fill only inner promises (see the refutation below); the executor
       then calls the handler again, and altogether never more often than the request has promises. *)
@@ -168,6 +188,46 @@ Theorem C15_response_eq_sync_composed : forall md root (cs1 cs2 : list (list nat
     FutSpec.conforms root (ExecAsync.r_data r2) (ExecAsync.r_errors r2).
 Proof. exact response_independent_of_handler_rounds. Qed.
 
+(** ** Subscriptions: one execution per event, all sharing one apiRequest
+
+    [sub_run fixed fx p s0 [tr1; ...; trn]]: the events' histories; between two executions
+    [finish_exec fixed] carries the apiRequest over — with the repair (finishExecution drops
+    [batches] and [chainedAsyncResolutions]) nothing but the connection's cancellation state.
+    On the repaired code every event is a run of the single-execution LTS from a fresh request
+    state ([fresh c] = [init], cancelled or not), so every theorem above holds of every event; in
+    particular its history is accepted by the Spec monitor: no batch function ever sees a field
+    context of an earlier event. *)
+Theorem C15_subscription_events_isolated : forall p, wf_items p = true -> bfun_ok p ->
+  forall fx trs c s,
+  sub_run true fx p (fresh c) trs = Some s ->
+  Forall (fun tr => exists c' s' m, run fx p (fresh c') tr = Some s' /\
+                                    mon_run p mon_init tr = Some m /\ Inv p s' /\ Sim p s' m) trs.
+Proof. exact events_isolated. Qed.
+
+(** Before the repair (api-fu 786cdc5): subscription{ev{a0:b0{a1:lb0 a2:lsN}}} with a2 failing; the first
+    event returns with the invocation of a1 still in [batches]; the second event's batch call is
+    [flush 0 [1; 0]] — field context 1 was not invoked in that execution; the Spec rejects the
+    history; and the repaired code cannot produce it. *)
+Theorem C15_subscription_batch_leak_refuted_before_fix :
+  exists p tr1 tr2 s,
+    wf_items p = true /\ bfun_ok p /\
+    sub_run false current p init [tr1; tr2] = Some s /\
+    (exists k its w, In (LFlush k its) tr2 /\ In w its /\ ~ In w (created_of tr2)) /\
+    mon_run p mon_init tr2 = None /\
+    sub_run true current p init [tr1; tr2] = None.
+Proof. exact batch_leak_before_fix. Qed.
+
+(** A hand-over in Go that also selects on the request context (the seeded change C15-2, as the
+    step relation [step_ctxdrop]): after a cancellation the goroutine may end without handing its
+    result over; the request [create 0; idle-enter; cancel; finish 0; arrive 0; exit 0] is then inside
+    the idle handler's blocking receive, still waits for promise 0, and no forced label is enabled
+    ever again: COMPLETION and NO DEADLOCK fail, which is why the hand-over must not look at ctx. *)
+Theorem C15_completes_refuted_with_ctx_drop :
+  exists p tr s, wf_items p = true /\ bfun_ok p /\ run_ctxdrop current p init tr = Some s /\
+                 st_phase s = PTop /\ live p s 0 = true /\
+                 forall l, forced l = true -> step_ctxdrop current p s l = None.
+Proof. exact completes_refuted_with_ctx_drop. Qed.
+
 (** The defect of the pinned tree, kept as a witness: without the executionDone case a request
     ({slow bad}: a Go field whose promise is abandoned) reaches a state in which the request has
     returned, a goroutine sits at its send, and nothing can ever move again. *)
@@ -189,8 +249,12 @@ Print Assumptions C15_completes.
 Print Assumptions C15_no_leak.
 Print Assumptions C15_drains.
 Print Assumptions C15_no_leak_refuted_before_fix.
+Print Assumptions C15_completes_refuted_with_ctx_drop.
+Print Assumptions C15_subscription_events_isolated.
+Print Assumptions C15_subscription_batch_leak_refuted_before_fix.
 Print Assumptions C15_idle_round_fulfils.
 Print Assumptions C15_idle_round_fair_unchained.
+Print Assumptions C15_idle_round_deliveries_outstanding.
 Print Assumptions C15_idle_rounds_bounded.
 Print Assumptions C15_round_fairness_refuted_with_chaining.
 Print Assumptions C15_handler_record_is_fair_scheduler.
